@@ -1,5 +1,6 @@
 """Engine `wkc`: C11 (Wkc.tla / WkcTrace + vsim wkc)."""
 import json
+import os
 import random
 
 from . import lib
@@ -68,4 +69,9 @@ def run(pid, tier):
 
 
 def replay(pid, tier, path):
-    raise lib.ToolError("replay: re-run `bin/check C11` with the same VERIF_SEED")
+    """Re-run the check that produced the replay file with its recorded seed and tier (the generators are seeded, so the
+    same cases are produced) and judge again."""
+    import json as _json
+    rp = _json.load(open(path))
+    os.environ["VERIF_SEED"] = str(rp.get("seed", 1))
+    return run(pid, rp.get("tier", tier))
